@@ -423,6 +423,9 @@ class World:
                 r = f.sid in out_rst
             elif f.type == C.PUSH_PROMISE:
                 r = (f.promised in out_rst) or (f.sid in out_rst)
+                if r and f.promised not in out_rst and any(
+                        ev['t'] == 'PushedStreamReceived' and ev.get('pushed_stream_id') == f.promised for ev in (s.events or ())):
+                    r = False       # (the RST_STREAM on the parent answers another frame of the burst: the promise was reported)
             rej.append(r)
             last = (i == len(units) - 1)
             if f.table_updates and not f.hpack_error and \
